@@ -299,3 +299,163 @@ Contract(
     ensures=_z_prep_post,
     properties=["C02", "C07", "C13"],
 )
+
+
+# ---------------------------------------------------------------------------
+# row plumbing: single_inference, _multi_inference_worker, inference  (C13, C14)
+# ---------------------------------------------------------------------------
+from pyvc.lib import txt  # noqa: E402
+
+RowT = TTuple([TInt, TBool, TBool, TFloat])  # (query key, answer, timed_out flag, time)
+ResultsT = TDict(RowT, TStr)
+QueriesT = TDict(TCnd)
+RS = RowT.sort()
+_r_key, _r_ans, _r_flag = (RS.accessor(0, 0), RS.accessor(0, 1), RS.accessor(0, 2))
+LStr = L.list_theory(StrSort, "Str")
+mem_Str, _ = L.mem_theory(StrSort)
+
+
+def GI(c, q, selfname="self"):
+    """the answer general_inference gives for q (trivial short cut, else the operator)"""
+    triv = z3.Or(L.isempty(L.M(L.ant(q))), L.isempty(L.fal(q)))
+    return z3.If(triv, True, OpSpec(q, c.es("weakly", selfname).t))
+
+
+def _q_at(qs, i):
+    return z3.Select(qs.val, LInt.at(qs.keys, i))
+
+
+def distinct_texts(qs):
+    """negated carve-out of the known finding KF-C13-duplicate-texts"""
+    i, j = z3.Ints("_dt_i _dt_j")
+    return Forall(
+        [i, j],
+        [LInt.at(qs.keys, i), LInt.at(qs.keys, j)],
+        z3.Implies(z3.And(0 <= i, i < j, j < LInt.len(qs.keys)), txt(_q_at(qs, i)) != txt(_q_at(qs, j))),
+        "distinct.texts",
+    )
+
+
+def rows_ok(c, qs, rd, upto, flagged_means=None, name="rows"):
+    """for every processed query: its row is stored under its text, carries its own key, and
+    is either flagged as timed out with answer False or carries the un-budgeted answer"""
+    i = z3.Int("_row_i")
+    q = _q_at(qs, i)
+    row = z3.Select(rd.val, txt(q))
+    body = z3.And(
+        mem_Str(rd.keys, txt(q)),
+        _r_key(row) == LInt.at(qs.keys, i),
+        z3.If(_r_flag(row), _r_ans(row) == False, _r_ans(row) == GI(c, q)),
+    )
+    return Forall([i], [LInt.at(qs.keys, i)], z3.Implies(z3.And(0 <= i, i < upto), body), name)
+
+
+INF = SelfT("Inference", partition=PartT)
+
+Contract(
+    "inference.inference:Inference.single_inference",
+    params={"self": INF, "queries": QueriesT, "timeout": TInt},
+    returns=ResultsT,
+    locals={"result_dict": ResultsT},
+    requires=lambda c: [distinct_texts(c.queries)],
+    ensures=lambda c, r: [rows_ok(c, c.queries, r, LInt.len(c.queries.keys))],
+    loops={
+        0: LoopSpec(
+            "for (index, query) in queries.items()",
+            lambda s, j, pre: [rows_ok(s, s.queries, s.result_dict, j)],
+        )
+    },
+    properties=["C13", "C14"],
+)
+
+Contract(
+    "inference.inference:Inference.multi_inference",
+    params={"self": INF, "queries": QueriesT, "timeout": TInt},
+    returns=ResultsT,
+    requires=lambda c: [distinct_texts(c.queries)],
+    ensures=lambda c, r: [rows_ok(c, c.queries, r, LInt.len(c.queries.keys))],
+    trusted=True,
+    note="ASSUMED (TB-mp, sequentialised): every worker is a call of _multi_inference_worker on a copy of the state "
+    "whose only effect is its row in the manager dict; real interleavings are not explored. Exercised by Engine B (C13).",
+)
+
+
+def _worker_post(c, r):
+    d = c.mp_return_dict
+    row = z3.Select(d.val, c.index.t)
+    q = c.query.t
+    return [
+        L.mem_Int(d.keys, c.index.t),
+        _r_key(row) == c.index.t,
+        z3.If(_r_flag(row), _r_ans(row) == False, _r_ans(row) == GI(c, q)),
+    ]
+
+
+Contract(
+    "inference.inference:Inference._multi_inference_worker",
+    params={"self": INF, "index": TInt, "query": TCnd, "mp_return_dict": TDict(RowT), "timeout": TInt},
+    returns=TNone,
+    ensures=_worker_post,
+    modifies=["mp_return_dict"],
+    properties=["C13", "C14"],
+)
+
+
+def _inference_post(c, r):
+    qs = c.queries
+    n = LInt.len(qs.keys)
+    i = z3.Int("_pt_i")
+    q = _q_at(qs, i)
+    row = z3.Select(r.val, txt(q))
+    pto = c.old.es("preprocessing_timed_out").t
+    timed_out_rows = Forall(
+        [i],
+        [LInt.at(qs.keys, i)],
+        z3.Implies(
+            z3.And(0 <= i, i < n),
+            z3.And(mem_Str(r.keys, txt(q)), _r_key(row) == LInt.at(qs.keys, i), _r_ans(row) == False),
+        ),
+        "rows.after.preprocessing.timeout",
+    )
+    return [_guard(pto, timed_out_rows), _guard(z3.Not(pto), rows_ok(c, qs, r, n))]
+
+
+def _guard(cond, fa):
+    """cond ==> forall ...   as a Forall"""
+    return Forall(fa.vars, fa.triggers, z3.Implies(cond, fa.body), fa.name + ".guarded")
+
+
+def _dc_inv(s, j, pre):
+    qs = s.queries
+    i = z3.Int("_dc_i")
+    q = _q_at(qs, i)
+    d = getattr(s, "_dc") if False else s._st.env["_dc"]
+    row = z3.Select(d.val, txt(q))
+    return [
+        Forall(
+            [i],
+            [LInt.at(qs.keys, i)],
+            z3.Implies(
+                z3.And(0 <= i, i < j),
+                z3.And(mem_Str(d.keys, txt(q)), _r_key(row) == LInt.at(qs.keys, i), _r_ans(row) == False),
+            ),
+            "dictcomp.rows",
+        )
+    ]
+
+
+Contract(
+    "inference.inference:Inference.inference",
+    params={"self": INF, "queries": QueriesT, "timeout": TInt, "multi_inference": TBool},
+    returns=ResultsT,
+    locals={"_dc": ResultsT, "result_dict": ResultsT},
+    requires=lambda c: [distinct_texts(c.queries)],
+    ensures=_inference_post,
+    raises={
+        "Exception": lambda c: z3.And(
+            z3.Not(c.old.es("preprocessing_done").t), z3.Not(c.old.es("preprocessing_timed_out").t)
+        )
+    },
+    loops={0: LoopSpec("{... for (i, q) in queries.items()}", _dc_inv)},
+    properties=["C13", "C14"],
+)
